@@ -168,22 +168,24 @@ func (p *Prog) buildKeyTable() *KeyTable {
 	return kt
 }
 
-// shapeOfBuilder interprets the (single) return expression of a builder.
+// shapeOfBuilder interprets the value a builder returns. Builders are
+// straight-line code: the single enumerated path gives the exact result term
+// (sequential appends into a temporary fold into one nested append).
 func (p *Prog) shapeOfBuilder(kt *KeyTable, f *Func) (Shape, bool) {
-	var rets []*ast.ReturnStmt
-	ast.Inspect(f.Body, func(n ast.Node) bool {
-		if r, ok := n.(*ast.ReturnStmt); ok {
-			rets = append(rets, r)
-		}
-		return true
-	})
-	if len(rets) != 1 || len(rets[0].Results) != 1 {
+	t := p.builderResult(f)
+	if t == nil {
 		return nil, false
 	}
-	ev := p.fiEval(f)
-	t := ev.eval(rets[0].Results[0])
-	sh := p.shapeOfTerm(kt, f, t)
+	sh := p.shapeOfTerm(kt, f, t, 0)
 	return sh, true
+}
+
+func (p *Prog) builderResult(f *Func) *Term {
+	paths := p.PathsOf(f)
+	if len(paths) != 1 || len(paths[0].Ret) != 1 {
+		return nil
+	}
+	return paths[0].Ret[0]
 }
 
 func (p *Prog) paramRole(f *Func, t *Term) (string, int) {
@@ -195,13 +197,13 @@ func (p *Prog) paramRole(f *Func, t *Term) (string, int) {
 	return "", -1
 }
 
-func (p *Prog) shapeOfTerm(kt *KeyTable, f *Func, t *Term) Shape {
+func (p *Prog) shapeOfTerm(kt *KeyTable, f *Func, t *Term, depth int) Shape {
 	t = stripSpread(t)
 	switch {
 	case t.Op == "append":
 		var sh Shape
 		for _, a := range t.A {
-			sh = append(sh, p.shapeOfTerm(kt, f, a)...)
+			sh = append(sh, p.shapeOfTerm(kt, f, a, depth)...)
 		}
 		return sh
 	case t.Op == "" && strings.HasPrefix(t.At, "@"):
@@ -217,7 +219,7 @@ func (p *Prog) shapeOfTerm(kt *KeyTable, f *Func, t *Term) Shape {
 		if role, i := p.paramRole(f, t.A[1]); i >= 0 && isStringType(f.Params[i].Type()) {
 			return Shape{{Kind: "Str", Role: role, Par: i}}
 		}
-		return p.shapeOfTerm(kt, f, t.A[1])
+		return p.shapeOfTerm(kt, f, t.A[1], depth)
 	case t.Op == "sdk.AccAddress.Bytes" && len(t.A) == 1:
 		if role, i := p.paramRole(f, t.A[0]); i >= 0 {
 			return Shape{{Kind: "Addr", Role: role, Par: i}}
@@ -248,6 +250,17 @@ func (p *Prog) shapeOfTerm(kt *KeyTable, f *Func, t *Term) Shape {
 			}
 		}
 		return sh
+	case strings.HasPrefix(t.Op, "types.") && depth < 4:
+		// a builder (or helper) composed from another one: interpret the callee's result on the actual arguments
+		if g := p.FuncNamed(t.Op); g != nil && g.isHandWritten() && g.Recv == nil && len(g.Res) == 1 && isByteSlice(g.Res[0].Type()) && t.Op != "types.getStringsKey" {
+			if rt := p.builderResult(g); rt != nil {
+				m := map[string]*Term{}
+				for i, a := range t.A {
+					m[fmt.Sprintf("P%d", i)] = a
+				}
+				return p.shapeOfTerm(kt, f, rt.Subst(m), depth+1)
+			}
+		}
 	case t.Op == "":
 		if role, i := p.paramRole(f, t); i >= 0 {
 			if isByteSlice(f.Params[i].Type()) {
